@@ -89,6 +89,33 @@ def _pairing_dispatch(ctx, P):
             ctx.report("R10.1", fi, inst, bad)
         else:
             ctx.ok("R10.1", inst, "input * metric(input) -> stencil -> result / metric(result)")
+    # several axes, each with its own request: the weights of an axis are the ones given for *that* axis
+    for name, mw, want in (("per-axis mapping with different axes per axis", {AX: (AX,), AY: (AY, AX)}, [("mult", (AX,)), ("UFUNC",), ("div", (AX,)), ("mult", (AY, AX)), ("UFUNC",), ("div", (AY, AX))]),
+                           ("per-axis mapping, only the second axis weighted", {AX: None, AY: (AY,)}, [("UFUNC",), ("mult", (AY,)), ("UFUNC",), ("div", (AY,))])):
+        inst = f"dispatch over two axes, {name}"
+        try:
+            outs = run_dispatch(P, "interp", {"AX": "center", "AY": "center"}, "left", axnames=("AX", "AY"), axis_arg=[AX, AY], metric_weighted=copy.deepcopy(mw))
+        except Unmodelled as e:
+            ctx.unknown("R10.1", inst, str(e))
+            continue
+        bad = None
+        for o in outs:
+            if o.kind != "return" or not isinstance(o.value, Obj):
+                bad = f"{o.kind} {o.value}"
+                continue
+            got = []
+            for e in o.value.eff:
+                if e[0] in ("mult", "div"):
+                    m = e[1]
+                    got.append((e[0], tuple(m.attrs["axes"]) if isinstance(m, Obj) and m.kind == "Metric" and isinstance(m.attrs.get("axes"), (list, tuple)) else "?"))
+                elif e[0] == "UFUNC":
+                    got.append(("UFUNC",))
+            if got != want:
+                bad = f"operations {got}; expected {want} (each axis weighted by the metric requested for it, before and after its own stencil)"
+        if bad:
+            ctx.report("R10.1", fi, inst, bad)
+        else:
+            ctx.ok("R10.1", inst, "each axis with its own weights")
     try:
         outs = run_dispatch(P, "interp", {"AX": "center"}, "left", metric_weighted=None, dims=[Sym("t"), dimsym("AX", "center")])
         if any(any(e[0] in ("mult", "div") for e in o.value.eff) for o in outs if isinstance(o.value, Obj)):
